@@ -27,6 +27,7 @@ type Obligation struct {
 	Status string // discharged failed undecided
 	Wit    []witness
 	Pos    string
+	CexExtra string // extra constraint used only when searching a counterexample
 }
 
 type witness struct{ Name, Term, Sort string }
@@ -559,7 +560,9 @@ func (g *Gen) header() string {
 	for _, d := range g.u.structDecl {
 		sb.WriteString(d + "\n")
 	}
+	sb.WriteString("; BEGIN-SPEC\n")
 	sb.WriteString(g.prog.specPrelude)
+	sb.WriteString("; END-SPEC\n")
 	for _, d := range g.decls {
 		sb.WriteString(d + "\n")
 	}
